@@ -86,6 +86,51 @@ Theorem c07_provider_prefix_suffices : forall (g : cfg) (sid : N) (link : option
 Proof. exact run_session_prefix. Qed.
 Print Assumptions c07_provider_prefix_suffices.
 
+(* … and WHY it never looks further: the tool budget.  `run_session_a ac` is run_session with the placement of
+   `tool_call_count += 1` as a parameter (at ACCT it is run_session, c07_accounting_as_modelled; the extractor re-reads the
+   placement from run_openresponses_agent_loop on every run: gen_acct, obligations gen_budget_ok / gen_acct_all).
+   When every drained call is paid for - refused by tool_choice or not - a run makes at most MAX_TOOL_CALLS provider
+   requests, for EVERY list of provider answers however long (a provider that answers for ever included): the run ends. *)
+Theorem c07_requests_bounded : forall (ac : acct) (g : cfg) (sid : N) (link : option N) (aok : ck -> bool) (inp : input),
+  acct_all ac = true ->
+  (nreq (run_session_a ac g sid link aok inp) <= N.to_nat MAX_TOOL_CALLS)%nat.
+Proof. exact requests_bounded. Qed.
+Print Assumptions c07_requests_bounded.
+
+Theorem c07_requests_bounded_as_built : forall (g : cfg) (sid : N) (link : option N) (aok : ck -> bool) (inp : input),
+  (nreq (run_session_a gen_acct g sid link aok inp) <= N.to_nat MAX_TOOL_CALLS)%nat.
+Proof. exact (fun g sid link aok inp => requests_bounded gen_acct g sid link aok inp gen_acct_all). Qed.
+Print Assumptions c07_requests_bounded_as_built.
+
+Theorem c07_accounting_as_modelled : forall (g : cfg) (sid : N) (link : option N) (aok : ck -> bool) (inp : input),
+  run_session_a ACCT g sid link aok inp = run_session g sid link aok inp.
+Proof. exact run_session_a_every. Qed.
+Print Assumptions c07_accounting_as_modelled.
+
+(* c07_provider_prefix_suffices restated for the accounting read from the source *)
+Theorem c07_provider_prefix_suffices_as_built : forall (g : cfg) (sid : N) (link : option N) (aok : ck -> bool) (cok : bool) (reqs extra : list req_out),
+  (N.to_nat MAX_TOOL_CALLS < length reqs)%nat ->
+  run_session_a gen_acct g sid link aok (IPrompt cok (reqs ++ extra)) = run_session_a gen_acct g sid link aok (IPrompt cok reqs).
+Proof. exact (fun g sid link aok cok reqs extra => run_session_a_prefix gen_acct g sid link aok cok reqs extra gen_acct_all). Qed.
+Print Assumptions c07_provider_prefix_suffices_as_built.
+
+(* REFUTED when a call refused by tool_choice is free (`tool_call_count += 1` only in the dispatching branches): against
+   the stubborn provider - every answer is one call of a refused function - the run asks again after EVERY answer.  For every
+   n there is a script of n such answers after which the run is still open: it has made request n+1 (fuel-indexed form
+   of "the run never ends against a provider that never stops") … *)
+Theorem c07_requests_unbounded_when_refused_calls_are_free_refuted : forall n : nat,
+  exists reqs, length reqs = n /\ forallb is_refused_answer reqs = true
+    /\ nreq (run_session_a AcctDispatchedOnly g_stateless_prov 1 (Some 2) all_ok (IPrompt true reqs)) = S n.
+Proof. exact requests_unbounded_dispatched_only. Qed.
+Print Assumptions c07_requests_unbounded_when_refused_calls_are_free_refuted.
+
+(* … so no finite prefix of the provider's answers determines the run: one more answer always changes it *)
+Theorem c07_provider_prefix_fails_when_refused_calls_are_free_refuted : forall n : nat,
+  run_session_a AcctDispatchedOnly g_stateless_prov 1 (Some 2) all_ok (IPrompt true (repeat refused_answer n ++ [refused_answer]))
+  <> run_session_a AcctDispatchedOnly g_stateless_prov 1 (Some 2) all_ok (IPrompt true (repeat refused_answer n)).
+Proof. exact prefix_fails_dispatched_only. Qed.
+Print Assumptions c07_provider_prefix_fails_when_refused_calls_are_free_refuted.
+
 (* AppendOk cannot be dropped: `let _ = continuities.append_run_ended(..)` (session.rs:308-317) — when that
    append fails the run stays spawned-but-never-ended on the thread and nobody is told *)
 Theorem c07_end_dropped_when_append_fails_refuted :
@@ -179,3 +224,11 @@ Example c07_demo_nontrivial :
   /\ demo_log <> concat (map (act_events all_ok) demo_acts)
   /\ count_ck (is_job_end_of 300) demo_log = 1%nat.
 Proof. exact demo_facts. Qed.
+
+(* the stubborn provider (64 identical answers, each one refused call) against the code's accounting: the run makes 32
+   requests and ends max_tool_calls_exceeded, run_ended last *)
+Example c07_stubborn_provider_as_built :
+  nreq stubborn_run = 32%nat
+  /\ last stubborn_run (EC (CMessage 0)) = EC (CRunEnded 1 2 R_MAX_TOOL_CALLS)
+  /\ forallb is_refused_answer (repeat refused_answer 64) = true.
+Proof. exact stubborn_run_ends. Qed.
